@@ -7,11 +7,13 @@ use std::panic::{catch_unwind, AssertUnwindSafe};
 
 mod util;
 mod surface;
+mod scene;
 
 fn main() {
     if std::env::var("RQV_VERBOSE").is_err() {
         std::panic::set_hook(Box::new(|_| {}));
     }
+    let aug = std::env::args().nth(1).map(|a| a == "aug").unwrap_or(false);
     let stdin = std::io::stdin();
     let stdout = std::io::stdout();
     let mut out = std::io::BufWriter::new(stdout.lock());
@@ -23,6 +25,7 @@ fn main() {
         }
         let res = match toks[0] {
             "surf" => surface::run(&toks[1..]),
+            "scene" => scene::run(&toks[1..], aug),
             k => panic!("unknown case kind {}", k),
         };
         writeln!(out, "{}", res).unwrap();
